@@ -419,4 +419,24 @@ _upd('C07', text_add='Added: closed-world scope-marker obligation (no definition
                      'resolves or opens a scope: labels and property names are never renamed).')
 _upd('C19', text_add='Tables extended: every JSON escape followed by every printable ASCII character, strings with format characters, all with fold_ops off and on.')
 
+# ---- fourth round ------------------------------------------------------------------------------------------------------
+for _cid in ('C01', 'C02', 'C03', 'C04', 'C05', 'C06', 'C08', 'C11', 'C12', 'C13'):
+    _upd(_cid, text_add=('Shared entry-point obligations (vf/checks/parsefwd.py): Parser.parse, Lexer.input and io.read hand the text on unchanged (E1); every '
+                         'parse() allocates its own Parser / Lexer and leaves no state behind (ownership obligations of C15, including class-level mutable '
+                         'defaults); bounded: read(stream) equals parse(text).'))
+for _cid in ('C01', 'C02', 'C07', 'C14', 'C20'):
+    _upd(_cid, text_add=('Shared printer-factory obligations (contracts/printers.py): pretty_printer / minify_printer / pretty_print / minify_print hand every '
+                         'option to the rule set it configures; obfuscation rules are present exactly when asked for and are given the lexer keyword table.'))
+_upd('C03', text_add='Added: the keyword table is exactly the 7.6.1 reserved words of non-strict code; identifier classes lie within those of Unicode 15 '
+                     '(three recategorised code points listed).')
+_upd('C04', text_add='Added: Parser.p_error contracts (the place where an automatic semicolon is requested); do-while and "no line terminator between the tokens" cases.')
+_upd('C07', text_add='Added: the obfuscation rule set plugs in only the identifier resolver, its token handler and one pre-walk hook.')
+_upd('C09', text_add='Added: encode_sourcemap builds exactly the V3 document; a multi-call scenario sharing book / sources / names.')
+_upd('C16', text_add='Added: walk with a condition given still yields every node.')
+_upd('C17', text_add='Added: building the non-optimised parser is itself an obligation (ply validates rules and token lists only in that mode).')
+_upd('C18', text_add=('Added: externals may raise non-Exception failures (KeyboardInterrupt-like) as well; the two normalisation switches reach sourcemap.write / '
+                      'write_sourcemap under their own names; node lists; utils.normrelpath wiring.'))
+_upd('C14', text_add='Frame analysis rule added: class-level mutable defaults mutated through self.')
+_upd('C15', text_add='Frame analysis rule added: class-level mutable defaults mutated through self; the token allowance is limited to the functions ply hands tokens to.')
+
 NOT_APPLICABLE = {}
